@@ -1,5 +1,6 @@
 """C04 - at-most-once delivery: duplicates, replays and retransmissions are dropped."""
 import hashlib
+import random
 import collections
 
 from checks.common import UdpCheck, Monitor, gen_traffic, limits
@@ -147,6 +148,26 @@ def gen_dups(rng, i, tier, wrap=False):
                      "link": rng.choice(["c%d>S" % c, "S>c%d" % c]),
                      "back": rng.choice([0, 1, 2, 30, 31, 32, 33, 34, 40, 64, 100, 255, 256, 257, 300, 600]),
                      "times": rng.choice([1, 1, 2, 4]), "delay": rng.choice([0.0, 0.0, 0.5])})
+    rng2 = random.Random("c04-extra|%s" % (rng.getstate()[1][:3],))         # (does not consume from the main stream)
+    for j in range(rng2.choice([0, 1, 3])):
+        # the attacker first sends a datagram that cannot authenticate but names a sequence number far ahead (or just
+        # ahead) of the sender's newest, then replays recorded genuine datagrams
+        c = rng2.randrange(n)
+        link = rng2.choice(["c%d>S" % c, "S>c%d" % c])
+        t = round(t0 + rng2.random() * (cfg["duration"] - t0 - 1.0), 3)
+        plan.append({"op": "poison", "global": True, "t": t, "link": link, "off": rng2.choice([32767, 32767, 16000, 300, 40, 33])})
+        for r in range(rng2.choice([1, 3])):
+            plan.append({"op": "replay", "global": True, "t": round(t + 0.02 + 0.01 * r, 3), "link": link,
+                         "back": rng2.choice([1, 2, 5, 20, 31, 40]), "times": 1, "delay": 0.0})
+    if rng2.random() < 0.3:
+        # one client leaves through disconnect() + the blocking waitForDisconnect() while the server still sends to it;
+        # afterwards its application keeps polling getMessages() every frame
+        c = rng2.randrange(n)
+        td = round(cfg["duration"] - 2.5, 3)
+        for r in range(rng2.choice([2, 5])):
+            plan.append({"op": "ssend", "c": c, "t": round(td - 0.08 + 0.03 * r, 4), "len": rng2.choice([8, 30, 200]), "kind": 0,
+                         "retry": rng2.choice([0, 1, -1]), "cb": False, "api": "send"})
+        plan.append({"op": "disconnect", "c": c, "t": td, "wait": True})
     return case
 
 
